@@ -94,6 +94,9 @@ structure Rec where
   deferRetry : Option Nat := none
   /-- position in the backoff script (`NextBackOff` calls since the last `Reset`) -/
   bo : Nat := 0
+  /-- epoch in which the backoff object of the record was constructed or last `Reset` (start of its
+  `MaxElapsedTime` clock; read only with `Cfg.fresh`) -/
+  born : Nat := 0
   /-- `r.routine != nil`: the constructor returned a routine -/
   hasFn : Bool := true
 deriving DecidableEq, Repr, Hashable
@@ -105,6 +108,10 @@ structure Cfg where
   delay : Bool
   /-- `WithBackoff`: `some n` = the backoff yields `D` n times, then `Stop` -/
   retry : Option Nat
+  /-- `WithRetry` with a library backoff config instead: constant interval `D`, `MaxElapsedTime` 3`D` (one
+  `advance`): `NextBackOff` yields `D` while the epoch of the backoff object's construction / last `Reset`
+  has not ended, then `Stop` (`retry` is `some 0` and not read) -/
+  fresh : Bool := false
 deriving DecidableEq, Repr, Hashable
 
 /-- `KeyedRef`: `rel` is the atomic once-flag, `listed` = the reference is in `rc.refs[key]` -/
@@ -244,7 +251,8 @@ def startKey (s : St) (k : Nat) (force : Bool) : St :=
 record belongs to -/
 def newRec (s : St) (k gen : Nat) : St :=
   let d := s.ctors k + 1
-  { s with keys := put s.keys k (some { id := s.nrec, gen := gen, data := d, hasFn := !s.nilNext.contains k })
+  { s with keys := put s.keys k (some { id := s.nrec, gen := gen, data := d, hasFn := !s.nilNext.contains k,
+                                        born := s.epoch })
            nctor := put s.nctor k (some d)
            nrec := s.nrec + 1
            nilNext := s.nilNext.filter (· != k) }
@@ -436,6 +444,15 @@ def retryCfg (s : St) : Option Nat :=
 /-! ## instances -/
 
 /-- the final critical section of `execute` (routine.go:125-157) for instance `i` of generation `g` -/
+def freshCfg (s : St) : Bool :=
+  match s.cfg with
+  | some c => c.fresh
+  | none => false
+
+/-- `NextBackOff() != Stop` at the exit bookkeeping of `x`, the current instance of `r` -/
+def armOk (s : St) (n : Nat) (r : Rec) (x : Inst) : Bool :=
+  if freshCfg s then r.born == x.retEpoch else decide (r.bo < n)
+
 def recordInst (s : St) (g i : Nat) (x : Inst) (k : Nat) : St :=
   let s0 := modInst s g i fun y => { y with st := .recorded }
   match s.key k with
@@ -445,8 +462,8 @@ def recordInst (s : St) (g i : Nat) (x : Inst) (k : Nat) : St :=
       let r2 := match retryCfg s with
         | none => r1
         | some n =>
-          if !x.failed then { r1 with deferRetry := none, bo := 0 }
-          else if r.bo < n then { r1 with deferRetry := some x.retEpoch, bo := r.bo + 1 }
+          if !x.failed then { r1 with deferRetry := none, bo := 0, born := x.retEpoch }
+          else if armOk s n r x then { r1 with deferRetry := some x.retEpoch, bo := r.bo + 1 }
           else { r1 with deferRetry := none, bo := r.bo + 1 }
       setRec (modG s0 g fun y => { y with last := none }) k (some r2)
     else s0
@@ -723,6 +740,8 @@ def pOutcome : String → Option Outcome
 def Obs.parse : List String → Option Obs
   | ["config", m, d, "noretry"] => do
     pure (.config { rc := ← pBool "rc" "plain" m, delay := ← pBool "delay" "nodelay" d, retry := none })
+  | ["config", m, d, "fresh"] => do
+    pure (.config { rc := ← pBool "rc" "plain" m, delay := ← pBool "delay" "nodelay" d, retry := some 0, fresh := true })
   | ["config", m, d, "retry", n] => do
     pure (.config { rc := ← pBool "rc" "plain" m, delay := ← pBool "delay" "nodelay" d, retry := some (← n.toNat?) })
   | "inv" :: id :: rest => do pure (.inv (← id.toNat?) (← pOp rest))
